@@ -83,6 +83,8 @@ template<typename Alloc>
 template<typename T>
 bool splinetable<Alloc>::write_key(const char* key, const T& value){
 	//check if the key is allowed
+	if (!key || !*key)
+		throw std::runtime_error("Cannot set key with empty name");
 	if (reservedFitsKeyword(key))
 		throw std::runtime_error("Cannot set key with reserved name "+std::string(key));
 	size_t keylen = strlen(key) + 1;
